@@ -851,6 +851,11 @@ class Transaction:
                 # less than the fee, after 5 attempts we give up and go home
                 cost += cost_of_change + 1
 
+            if not tx._outputs:
+                # every attempt ended without an output: such a transaction is invalid and
+                # would hand all of its inputs to the miner, refuse instead of returning it
+                raise InsufficientFundsError()
+
             if sign:
                 await tx.sign(funding_accounts)
 
